@@ -148,7 +148,7 @@ class SimTransport:
 class FaultConfig:
     """Per-run link behaviour. All probabilities are per (transmission, receiver)."""
 
-    FIELDS = ("max_delay_us", "loop_delay_us", "drop_p", "dup_p", "b2b_p", "grid_p", "corrupt_p")
+    FIELDS = ("max_delay_us", "loop_delay_us", "drop_p", "dup_p", "b2b_p", "grid_p", "corrupt_p", "extreme_p")
 
     def __init__(self, **kw):
         self.max_delay_us = 100_000
@@ -158,6 +158,7 @@ class FaultConfig:
         self.b2b_p = 0.0  # back-to-back duplicate (same instant, same socket)
         self.grid_p = 0.5  # probability that a delay is a whole number of ms
         self.corrupt_p = 0.0
+        self.extreme_p = 0.0  # probability that a delay is (next to) none or (next to) the maximum: worst-case reordering
         for k, v in kw.items():
             if k not in self.FIELDS:
                 raise KeyError(k)
@@ -200,6 +201,8 @@ class SimNet:
                              "discard_closed": 0, "forced_drop": 0}
         self.partitioned = set()  # owner names currently cut off
         self.drop_tx = None  # (tx_index, receiver-name or None): the single forced loss (C07)
+        self.drop_after = None  # (sender-name, seconds after t0, n, receiver-name or None): the same, placed by time
+        self._drop_after_seen = {}
         self.b2b_all = False  # C16: duplicate every delivery back to back
         self.b2b_filter = None
         self.b2b_gap = 0.0  # seconds of virtual time between a datagram and its back-to-back copy
@@ -260,10 +263,13 @@ class SimNet:
                     d["d"] = r.randrange(0, maxd + 1)
             else:
                 d["d"] = 0
+            if f.extreme_p and maxd > 0 and r.random() < f.extreme_p:
+                d["d"] = r.choice([0, 0, maxd, maxd - r.randrange(0, maxd // 4 + 1), r.randrange(0, maxd // 20 + 1)])
             if f.drop_p and r.random() < f.drop_p:
                 d["drop"] = 1
             if f.dup_p and r.random() < f.dup_p:
-                d["dup"] = r.randrange(0, maxd + 1) if maxd > 0 else 0
+                # the second copy is a datagram like any other: its own delay, within the link's maximum
+                d["dup2"] = r.randrange(0, maxd + 1) if maxd > 0 else 0
             if f.b2b_p and r.random() < f.b2b_p:
                 d["b2b"] = 1
             if f.corrupt_p and r.random() < f.corrupt_p:
@@ -283,6 +289,16 @@ class SimNet:
             self.fault_counts["forced_drop"] += 1
             world.log("drop", tx.idx, rsock.label)
             return
+        if self.drop_after is not None:
+            # the single forced loss, placed relative to an operation: the n-th transmission of a host from a time on
+            dh, dt, dn, drcv = self.drop_after
+            if tx.host == dh and tx.t >= world.t0 + dt - 1e-9:
+                if tx.idx not in self._drop_after_seen:
+                    self._drop_after_seen[tx.idx] = len(self._drop_after_seen)
+                if self._drop_after_seen[tx.idx] == dn and drcv in (None, rsock.owner.name):
+                    self.fault_counts["forced_drop"] += 1
+                    world.log("drop", tx.idx, rsock.label)
+                    return
         if dec.get("drop"):
             self.fault_counts["drop"] += 1
             world.log("drop", tx.idx, rsock.label)
@@ -310,9 +326,11 @@ class SimNet:
         # up to (an empty context: the timer belongs to no host and is never held back by a stall)
         self.loop.call_at(self.loop.time() + dec["d"] / 1e6, self._arrive, rsock, data, addr, tx.idx, copies,
                           context=_NO_HOST.copy())
-        if "dup" in dec:
+        if "dup2" in dec or "dup" in dec:
+            # ("dup": recorded decisions of older replay files, where the copy's delay was drawn on top of the first's)
             self.fault_counts["dup"] += 1
-            self.loop.call_at(self.loop.time() + (dec["d"] + dec["dup"]) / 1e6, self._arrive, rsock, data, addr,
+            dd = dec["dup2"] if "dup2" in dec else dec["d"] + dec["dup"]
+            self.loop.call_at(self.loop.time() + dd / 1e6, self._arrive, rsock, data, addr,
                               tx.idx, 1, context=_NO_HOST.copy())
 
     # --------------------------------------------------------------- arrive / read
